@@ -1,1 +1,59 @@
-From PM Require Import Model.Resolve.
+(* C09 — positions resolve consistently with the flat token picture, counting UTF-16 units.
+   [before_p path toff] / [after_p path toff] (Proofs/PathTokens.v) read the tokens on the left and on the
+   right of a resolved position off its path: for every level the children before the path's child, the
+   open token of the child the path descends into, and at the last level the first [toff] units of the
+   text node the position points into.  The theorems say, for every schema, document and position:
+   resolve succeeds exactly on 0..size; the path it returns is a chain of parent/child nodes; and the
+   tokens on its left / right are exactly the first pos / the remaining tokens of the document — i.e. the
+   position IS the token index, one per UTF-16 unit.  The individual accessors (start/end/before/after,
+   node_at, nodes_between, text_between, marks ...) are compared with their token-level specification per
+   case by Corr.C09 (Spec/TokenPos.v). *)
+From Coq Require Import List Arith Lia.
+From PM Require Import Model.Data Model.Mark Model.Tree Spec.Tokens
+  Proofs.ReplaceValid Proofs.SliceSides Proofs.TokenBasics Proofs.PathTokens Proofs.ReplaceTokens.
+Import ListNotations.
+
+Theorem C09_every_position_resolves : forall s doc pos,
+  is_elem doc -> pos <= frag_size s (node_content doc) -> exists r, resolve s doc pos = Ok r.
+Proof. exact resolve_total. Qed.
+Print Assumptions C09_every_position_resolves.
+
+Theorem C09_only_positions_resolve : forall s doc pos r,
+  resolve s doc pos = Ok r -> pos <= frag_size s (node_content doc) /\ rp_pos r = pos.
+Proof.
+  intros s doc pos r H. split; [apply (resolve_tokens s _ _ _ H)|apply (resolve_spec s _ _ _ H)].
+Qed.
+Print Assumptions C09_only_positions_resolve.
+
+Theorem C09_position_is_token_index : forall s doc pos r,
+  resolve s doc pos = Ok r ->
+  before_p s (rp_path r) (rp_text_offset r) = firstn pos (ftoks s (node_content doc)) /\
+  after_p s (rp_path r) (rp_text_offset r) = skipn pos (ftoks s (node_content doc)).
+Proof. intros s doc pos r H. apply (resolve_tokens s _ _ _ H). Qed.
+Print Assumptions C09_position_is_token_index.
+
+(* the path is a chain: it starts at the document, every entry's node is the child (at the recorded index)
+   of the entry above it, every node on it is an element and, below the root, a non-leaf one; a non-zero
+   text offset means the position points into a text child *)
+Theorem C09_path_is_an_ancestor_chain : forall s doc pos r,
+  resolve s doc pos = Ok r ->
+  (exists i o rest, rp_path r = (doc, i, o) :: rest) /\
+  (forall d n1 i1 o1 n2 i2 o2, path_at r d = Some (n1, i1, o1) -> path_at r (S d) = Some (n2, i2, o2) ->
+     child_at n1 i1 = Some n2) /\
+  (forall d n, rp_node r d = Ok n -> is_elem n /\ (0 < d -> nonleaf s n)) /\
+  (rp_text_offset r <> 0 ->
+     exists n i o t m, path_at r (rp_depth r) = Some (n, i, o) /\ child_at n i = Some (Text t m)).
+Proof.
+  intros s doc pos r H. destruct (resolve_spec s _ _ _ H) as (_ & Hl & Ht & Hh & _).
+  split; [exact Hh|]. split; [exact Hl|]. split; [exact (resolve_PathShape s _ _ _ H)|exact Ht].
+Qed.
+Print Assumptions C09_path_is_an_ancestor_chain.
+
+(* the parent offset is the token index inside the innermost ancestor *)
+Theorem C09_parent_offset : forall s doc pos r,
+  resolve s doc pos = Ok r ->
+  exists parent i o, path_at r (rp_depth r) = Some (parent, i, o) /\
+    before_p s [(parent, i, o)] (rp_text_offset r) = firstn (rp_parent_offset r) (ftoks s (node_content parent)) /\
+    after_p s [(parent, i, o)] (rp_text_offset r) = skipn (rp_parent_offset r) (ftoks s (node_content parent)).
+Proof. exact resolve_last. Qed.
+Print Assumptions C09_parent_offset.
